@@ -22,6 +22,7 @@ func TestMain(m *testing.M) {
 		"WaitTimeout timing uses the wall clock: slack = max(250 ms, 20 x the worst of the last 8 scheduler-latency probes, one taken before each case); "+
 			"only a hang (watchdog at 10 x (bound+slack)) or a return later than bound + 10 x slack, reproduced in 3 consecutive fresh runs, is a violation; "+
 			"lateness between 1 x and 10 x slack is counted inconclusive; early returns are legal",
+		"TestWaitCoincide: 4-8 workers x 120 waits of 1-2 ms with the Signal/Broadcast aimed at the expiry (-100..+300 us); a wait is a hang only if it has not returned after 10 s and again after 10 more seconds",
 		"every WaitTimeout case uses a fresh lock and condition variable (goose-lang/primitive leaks a helper goroutine per timed-out call; out of scope)",
 		"RandomUint64, TimeNow, Sleep, Linearize, NewProph: only 'does not panic and returns' is asserted")
 	ev.Main(m, "C16")
@@ -94,6 +95,14 @@ func TestReplay(t *testing.T) {
 		// schedule-dependent: re-run the same case several times
 		for i := 0; i < 5; i++ {
 			checkWait(t, r.Test, c)
+		}
+	case "TestWaitCoincide":
+		var c CoincideCase
+		if err := json.Unmarshal(r.Case, &c); err != nil {
+			t.Fatal(err)
+		}
+		for i := 0; i < 3; i++ {
+			checkCoincide(t, c)
 		}
 	default:
 		t.Fatalf("replay names unknown test %q", r.Test)
